@@ -122,6 +122,7 @@ ReadBack(X) ==
              R("get_linear", [idx |-> lin, form |-> "list"]),
              R("get_linear", [idx |-> RevSeq(lin), form |-> "list"]),
              R("get_linear", [idx |-> lin, form |-> "slice"]),
+             R("get_linear", [idx |-> RevSeq(lin), form |-> "slice"]),        \* the linear slice with step -1
              R("get_linear", [idx |-> <<Size(X) - 1>>, form |-> "int"]),
              R("get_region", [key |-> [m \in 1..n |-> all]]),
              R("get_region", [key |-> [m \in 1..n |-> IF m = 1 THEN KInt(0) ELSE all]]),
